@@ -777,6 +777,12 @@ def check_case(st, case, tags, model_ans, with_cli, workdir, shrunk_reasons):
             st.count('has-wild-dep')
         if any(len(t['task_dep']) > 0 and t['file_dep'] for t in api['control']['tasks']):
             st.count('has-file-dep+task-dep')
+    # hypotheses of the partial theorems, evaluated by the driver on this case
+    st.count('hyp:Safe=%s' % model_ans.get('safe'))
+    st.count('hyp:Tidy=%s' % model_ans.get('tidy'))
+    if model_ans.get('safe') and api['control']['out'] == 'crash':
+        st.divergence({'case': case, 'impl': api['control']},
+                      'theorem total_partial does not transfer: Safe case crashes the implementation')
     # (K)
     for level in ('load', 'control'):
         dif = L.diff_level(model_ans[level], api[level], level)
